@@ -138,7 +138,7 @@ def run(ctx):
             h = model.gen_big_history(rng)
             ctx.count("c01.big_segment_cases")
         else:
-            h = model.gen_group_history(rng) if grouped else model.gen_history(rng, ndocs=(1, 45), boosts=rng.random() < 0.3)
+            h = model.gen_group_history(rng) if grouped else model.gen_history(rng, ndocs=(1, 45), boosts=rng.random() < 0.3, boolean=True)
         wname, wobj = gen_weighting(rng)
         wb = {"history": {"commits": [len(c) for c in h["commits"]], "deletes": h["deletes"][:12],
                           "blocklimit": h["blocklimit"], "storage": h["storage"]}, "case_idx": idx, "weighting": wname}
@@ -173,7 +173,7 @@ def run(ctx):
                             q = query.And([q, model.gen_leaf(rng, fuzzy=False)])
                         exp = check_query(ctx, rng, built, s, q, wb, wname)
                     else:
-                        q = model.gen_query(rng, depth=rng.choice([1, 2, 3, 3, 4]), scoring=rng.random() < 0.4)
+                        q = model.gen_query(rng, depth=rng.choice([1, 2, 3, 3, 4]), scoring=rng.random() < 0.4, boolean=True)
                         exp = check_query(ctx, rng, built, s, q, wb, wname)
                     if exp is None:
                         continue
